@@ -29,4 +29,51 @@ func cmdGen(out string) {
 		fmt.Fprintf(&sb, "Definition c_%s : N := %d.\n", c.Name, c.Val)
 	}
 	writeIfChanged(out+"/Consts.v", sb.String())
+	genSettingsTable(out)
+}
+
+// genSettingsTable writes the outputs of the real setThreshold for slab sizes 256..32768:
+// SettingsTable.v holds every T <= 4096 and every 13th above (compiled on every run),
+// SettingsTableFull.v every T (compiled in the thorough tier). Rows are chunked by 500
+// because one 32k-element list literal overflows coqc's stack.
+func genSettingsTable(out string) {
+	defer atree.VerifSetThreshold(1024)
+	row := func(T uint32) string {
+		r := atree.VerifSetThreshold(T)
+		return fmt.Sprintf("(%d,%d,%d,%d,%d,%d)", r[0], r[1], r[2], r[3], r[4], r[5])
+	}
+	emit := func(name string, keep func(T uint32) bool) {
+		var sb strings.Builder
+		sb.WriteString("(* GENERATED from /repo by `harness gen`: outputs of setThreshold(T) = (target,min,max,maxInlineArrayElement,maxInlineMapElement,maxInlineMapKey). Do not edit. *)\nFrom Coq Require Import NArith List.\nImport ListNotations.\nLocal Open Scope N_scope.\n")
+		var rows []string
+		chunk := 0
+		flush := func() {
+			if len(rows) == 0 {
+				return
+			}
+			fmt.Fprintf(&sb, "Definition %s_chunk%d : list (N*N*N*N*N*N) := [\n%s].\n", name, chunk, strings.Join(rows, ";\n"))
+			rows = nil
+			chunk++
+		}
+		for T := uint32(256); T <= 32768; T++ {
+			if keep(T) {
+				rows = append(rows, row(T))
+				if len(rows) == 500 {
+					flush()
+				}
+			}
+		}
+		flush()
+		fmt.Fprintf(&sb, "Definition %s : list (list (N*N*N*N*N*N)) := [", name)
+		for i := 0; i < chunk; i++ {
+			if i > 0 {
+				sb.WriteString("; ")
+			}
+			fmt.Fprintf(&sb, "%s_chunk%d", name, i)
+		}
+		sb.WriteString("].\n")
+		writeIfChanged(out+"/"+name+".v", sb.String())
+	}
+	emit("SettingsTable", func(T uint32) bool { return T <= 4096 || T%13 == 0 || T == 32768 })
+	emit("SettingsTableFull", func(T uint32) bool { return true })
 }
